@@ -7,24 +7,36 @@ META = {
     "level": "proof",
     "text": ("Coq theorems over an impl-mirror of lexer.rs number_token and of parse_number_from_string: radix and decimal literals denote "
              "exactly sum d_i*r^i (radix_literal_exact), digit-group separators do not change the value (digit_groups_ignored), 0'c literals "
-             "denote the code point (char_code_literal_exact), every integer written in decimal reads back as itself (int_text_roundtrip), the "
-             "decimal->binary64 conversion used as the specification of float literals is within half an ulp with ties to even "
-             "(dec_to_float_correct_partial), and a list of malformed spellings is rejected (syntax_error_cases). The mirror is tied to the code "
-             "by running grammar-generated spellings (every branch of number_token, valid and malformed) through number_codes/2, number_chars/2, "
-             "read_from_chars/2 and read_term_from_chars/3 and comparing value/IEEE bits/syntax_error with the model inside Coq, together with "
-             "the agreement of the entry points; number->text->number round trips for boundary integers and >= 20000 doubles are compared bit for bit."),
+             "denote the code point (char_code_literal_exact), every integer written in decimal reads back as itself (int_text_roundtrip), and a "
+             "list of malformed spellings is rejected (syntax_error_cases). The decimal->binary64 conversion used as the specification of float "
+             "literals is proved total (dec_round_total, dec_to_float_total: no fuel exhaustion, any m > 0, any exponent) and correct against an "
+             "independent specification over the real numbers (coq/C16/Round.v): dec_to_float_correct says that for every 0 <= m < 10^nd and every "
+             "e the result is the canonical finite binary64 nearest to m*10^e among all m'*2^e' with |m'| < 2^53, e' >= -1074, with an even mantissa "
+             "on a tie -- normal, subnormal and underflow-to-zero results alike -- and that it is the overflow result exactly when "
+             "m*10^e >= 2^1024 - 2^970 (which the lexer reports as a syntax error); dec_to_float_is_flocq_round identifies it with Flocq's "
+             "round radix2 (FLT_exp (-1074) 53) ZnearestE; parse_float_correct lifts this to the token texts I.F, I.FeX, I.Fe+X, I.Fe-X; "
+             "float_text_roundtrip_partial: a decimal whose nearest-even binary64 is the finite double b (ryu's contract, as hypothesis) reads "
+             "back as exactly b. The mirror is tied to the code by running grammar-generated spellings (every branch of number_token, valid and "
+             "malformed) through number_codes/2, number_chars/2, read_from_chars/2 and read_term_from_chars/3 and comparing value/IEEE "
+             "bits/syntax_error with the model inside Coq, together with the agreement of the entry points; number->text->number round trips "
+             "for boundary integers and >= 20000 doubles are compared bit for bit."),
     "note": ("Trusted: Coq kernel + vm_compute; the Python generator; harness vrun. Modelled, not verified: lexical's float parser (specified as "
-             "correct rounding), ryu/fmt_float and Rust's {:?} float printing (only checked: the text reads back as the same double and has digits on "
-             "both sides of a dot), i64/dashu from_str_radix (as Horner evaluation), Unicode White_Space/Cc tables for 0'c (listed in the model). "
-             "dec_to_float_correct_partial: totality of dec_round (the exponent estimate is never off by more than one) and the link to Flocq's "
-             "round_NE are not proved; float round trip for every double is differential only. atom_number/2 does not exist in this tree. "
-             "No axioms."),
-    "technique": "Coq proof (radix_literal_exact, digit_groups_ignored, int_text_roundtrip, char_code_literal_exact, dec_to_float_correct_partial, syntax_error_cases) over an impl-mirror model + differential correspondence evaluated in Coq",
+             "correct rounding; that it equals the proved-correct model is differential), ryu/fmt_float and Rust's {:?} float printing (only "
+             "checked: the text reads back as the same double and has digits on both sides of a dot; in float_text_roundtrip_partial the "
+             "printer's contract is a hypothesis, so the float round trip for every double is theorem for the reading half and differential "
+             "for the printing half), i64/dashu from_str_radix (as Horner evaluation), Unicode White_Space/Cc tables for 0'c (listed in the "
+             "model). The sign of a float literal is applied outside the conversion (magnitudes only in the theorems). atom_number/2 does not "
+             "exist in this tree. Axioms: the theorems about real numbers (dec_to_float_correct, dec_to_float_is_flocq_round, "
+             "parse_float_correct, is_nearest_even_determines, float_text_roundtrip_partial) use Flocq 4.1 and the standard library's "
+             "real-number axioms ClassicalDedekindReals.sig_forall_dec, ClassicalDedekindReals.sig_not_dec, "
+             "FunctionalExtensionality.functional_extensionality_dep and Classical_Prop.classic; all other theorems, including the two "
+             "totality theorems, are closed under the global context."),
+    "technique": "Coq proof (radix_literal_exact, digit_groups_ignored, int_text_roundtrip, char_code_literal_exact, dec_to_float_total, dec_to_float_correct, dec_to_float_is_flocq_round, parse_float_correct, float_text_roundtrip_partial, syntax_error_cases) over an impl-mirror model + differential correspondence evaluated in Coq",
     "design_ref": "DESIGN.md section 8, C16",
     "coq_targets": ["C16/Props.vo"],
     "coq_dirs": ["C16"],
     "props": "C16/Props.v",
-    "trusted_base": ["Coq 8.16.1 kernel, vm_compute (no native_compute)", "harness/vrun + tools/vlib (correspondence)",
+    "trusted_base": ["Coq 8.16.1 kernel, vm_compute (no native_compute)", "Flocq 4.1.0 + Coq Reals axioms (rounding theorems only)", "harness/vrun + tools/vlib (correspondence)",
                      "lexical / ryu / dashu primitives modelled, not verified", "Python spelling generator"],
     "assumptions": ["doubles are constructed inside Prolog as M * 2.0**E1 * 2.0**E2 (exact) and their bits are read from the answer channel",
                     "the sign of a zero float is not compared"],
